@@ -80,7 +80,7 @@ def handleCtl (op : Str) (args : List Str) : Option String :=
       let doc := parseDoc (toks.filterMap decodeTok)
       let st0 : St Pcg.Rng := { rng := Pcg.seedFromU64 0, cfg := cfg }
       let fuel := 4000 + 40 * toks.length
-      let (st, r) := processNodes realEvalr fuel st0 doc
+      let (_, st, r) := transformDoc realEvalr fuel st0 doc
       let status : Str := match r with
         | .ok _ => cs!"ok"
         | .error e => cs!"err:" ++ e.name.toList
